@@ -1004,6 +1004,33 @@ theorem restart_args_equiv (ρ : Valuation) (h : ListenPortRecorded ρ) :
   rw [hR, hU, ← interp_norm evmDisplay restartRetainResolved, ← interp_norm evmDisplay upgradeOfEntryResolved]
   exact interp_perm evmDisplay ρ restart_tables_perm
 
+/-- **Where `ListenPortRecorded` comes from.** `on_start` (full refresh) of a node that reports a listener on
+port `x` records the listen address AND `node_port = x` (`afterStart`); `get_antnode_port()` then reads `x` back
+from the recorded listen address (`withListen _ (some x)`). -/
+theorem listen_port_recorded_after_start (d : Valuation) (x : AStr) :
+    ListenPortRecorded (withListen (afterStart d (some x)) (some x)) := by
+  simp [ListenPortRecorded, withListen, afterStart]
+
+/-- … so for every registry entry of a started service the retained restart and the upgrade regenerate the
+same arguments. -/
+theorem restart_args_equiv_after_start (d : Valuation) (x : AStr) :
+    (buildRestartRetain (withListen (afterStart d (some x)) (some x))).Perm
+      (buildUpgrade (withListen (afterStart d (some x)) (some x))) :=
+  restart_args_equiv _ (listen_port_recorded_after_start d x)
+
+/-- **Outside `ListenPortRecorded`**: an entry whose `node_port` was pinned at `antctl add --node-port 13001`
+but which records no listen address with a port (`listen_addr = None`, or a started node that reported no
+listener): `get_antnode_port()` is `None`, the retained restart writes NO `--port` while the registry entry and
+every upgrade keep `--port 13001`. (The daemon addresses services by peer id, which is recorded by the same
+`on_start` that records the listen address; the case needs a node that answered `node_info` but reported no
+listener. Observation, not alarmed.) -/
+theorem restart_drops_port_without_listen_addr :
+    let ρ := withListen (recordOf (fun q => if q = ["node_port"] then .opt (some [.plain "13001"]) else exampleRecord q)) none
+    ¬ ListenPortRecorded ρ ∧
+    (buildRestartRetain ρ).all (fun it => it.flag != some "port") = true ∧
+    (buildUpgrade ρ).any (fun it => it.flag == some "port" && it.value == .one "13001") = true := by
+  refine ⟨by unfold ListenPortRecorded; decide, by decide, by decide⟩
+
 def restartRetainCtxResolved : List (String × Src) :=
   installCtx.map fun kv => (kv.1, (kv.2.subst viaRestartRetain).norm)
 def upgradeOfEntryCtxResolved : List (String × Src) :=
@@ -1141,6 +1168,50 @@ theorem replacement_upgrade_args_equiv (ρ : Valuation) :
     rw [← evalSrc_subst, ← evalSrc_subst, ← evalSrc_norm ρ (Src.subst _ upgradeUninstallLevel),
       ← evalSrc_norm ρ (Src.subst _ upgradeInstallLevel), h1.1, h1.2, evalSrc_norm]
 
+/-- The FIFTH uninstall/install call of the manager: the replacement is installed (and recorded) at the level
+of the service it replaces. -/
+def ReplacementKeepsLevel : Prop :=
+  ∀ ρ : Valuation, evalSrc ρ restartReplaceInstallLevel = ρ ["user_mode"] ∧
+    evalSrc ρ ((Src.var ["user_mode"]).subst viaReplaceData) = ρ ["user_mode"]
+
+/-- **replacement_level (two-sided).** Either the source passes the recorded level (`current_node_clone.user_mode`
+at both sites) and `ReplacementKeepsLevel` holds for every entry; or — today — both sites are the literal `false`
+and it fails: the replacement of an entry recorded at user level (`restartWitnessEntry`) is installed and recorded
+at SYSTEM level. -/
+theorem replacement_level :
+    (restartReplaceInstallLevel = .var ["user_mode"] ∧ ReplacementKeepsLevel) ∨
+    (restartReplaceInstallLevel = .const "false" ∧ ¬ ReplacementKeepsLevel) := by
+  first
+  | exact Or.inl ⟨by decide, fun ρ => ⟨by
+      have h : restartReplaceInstallLevel = .var ["user_mode"] := by decide
+      rw [h]; rfl, by
+      have h : (Src.var ["user_mode"]).subst viaReplaceData = .var ["user_mode"] := by decide
+      rw [h]; rfl⟩⟩
+  | exact Or.inr ⟨by decide, fun h => by
+      have := (h restartWitnessEntry).1
+      revert this
+      decide⟩
+
+/-- **`_partial`: holds for every entry `antctl` can have written.** `antctl add` sets a service user only at
+system level (`addServiceUserOnlyAtSystemLevel`, read from `cmd::node::add`), and the replacement branch refuses
+an entry without a service user (`The user must be set in the RPC context`) before anything is installed: so a
+replacement that does get installed replaces a system-level service, and `false` is its level. -/
+theorem replacement_keeps_level_partial (ρ : Valuation) (hsys : ρ ["user_mode"] = .bool false) :
+    addServiceUserOnlyAtSystemLevel = true ∧
+    evalSrc ρ restartReplaceInstallLevel = ρ ["user_mode"] ∧
+    evalSrc ρ ((Src.var ["user_mode"]).subst viaReplaceData) = ρ ["user_mode"] := by
+  refine ⟨by decide, ?_, ?_⟩
+  · first
+    | (have h : restartReplaceInstallLevel = .var ["user_mode"] := by decide
+       rw [h]; rfl)
+    | (have h : restartReplaceInstallLevel = .const "false" := by decide
+       rw [h, hsys]; rfl)
+  · first
+    | (have h : (Src.var ["user_mode"]).subst viaReplaceData = .var ["user_mode"] := by decide
+       rw [h]; rfl)
+    | (have h : (Src.var ["user_mode"]).subst viaReplaceData = .const "false" := by decide
+       rw [h, hsys]; rfl)
+
 /-! ## `antctl add --bootstrap-cache-dir` (audit C20-4) -/
 
 def cacheEntry : Entry := ⟨.isSome (.var cachePath), some "bootstrap-cache-dir", some (.var cachePath, .lossy)⟩
@@ -1209,12 +1280,24 @@ theorem upgrade_environment_kept_partial (σ : Valuation) (prev env : Option ASt
 /-! ## The unit file: what systemd makes of the definition (audit C20-1, known finding K-t-unit-unquoted) -/
 open SafeNet.UnitFile
 
-/-- The two format strings of the locked `service-manager` crate's systemd backend are the ones
-`execStartValue` / `environmentLine` implement (read from the registry source by the translator; the rendered
-text itself is compared with the crate's own output on every record by component `upgrade`). -/
-theorem unit_formats_as_modelled :
-    unitExecStartFormat = "ExecStart={program} {args}" ∧ unitArgsSeparator = " " ∧
-    unitEnvironmentFormat = "Environment=\"{var}={val}\"" := by decide
+theorem unit_format_pieces :
+    fmtPieces unitExecStartFormat = [.lit "ExecStart=", .hole "program", .lit " ", .hole "args"] ∧
+    unitArgsSeparator = " " ∧
+    fmtPieces unitEnvironmentFormat = [.lit "Environment=\"", .hole "var", .lit "=", .hole "val", .lit "\""] := by decide
+
+/-- **unit_formats_as_modelled.** The unit-file lines rendered FROM the format strings the translator reads
+out of the locked `service-manager` crate's `systemd.rs::make_service` (`unitExecStartLine`,
+`unitEnvironmentLine`: every `{name}` hole filled, nothing quoted or escaped — the driver prints these and
+component `upgrade` compares them with the crate's own output on every record) are, for every program,
+argument list, variable and value, exactly the strings the unit-file theorems are about
+(`execStartValue`, `environmentLine`). A changed format string or separator breaks this. -/
+theorem unit_formats_as_modelled (program : String) (args : List String) (var val : String) :
+    unitExecStartLine program args = "ExecStart=" ++ execStartValue program args ∧
+    unitEnvironmentLine var val = environmentLine var val := by
+  obtain ⟨h1, h2, h3⟩ := unit_format_pieces
+  constructor
+  · simp [unitExecStartLine, h1, h2, fmtApply, execStartValue, String.append_assoc]
+  · simp [unitEnvironmentLine, h3, fmtApply, environmentLine, String.append_assoc]
 
 /-- `ServiceInstallCtx.program` as the unit file shows it (`to_string_lossy`) -/
 def programOf (settings : List (String × Val)) : String :=
@@ -1296,8 +1379,11 @@ the oracle of component `antnode_accepts`. -/
 def TypedValuesPlain (σ : Valuation) : Prop :=
   ∀ e ∈ installResolved, entryClass e ≠ .user → ∀ it, evalEntry evmDisplay σ e = some it → ivalUnitSafe it.value = true
 
-/-- **unit_safe_of_user_strings.** `UnitSafe` is a hypothesis about the program path and the user's own
-strings only. -/
+/-- **unit_safe_of_user_strings.** `UnitSafe` follows from THREE hypotheses: the program path is a safe word,
+the user's own strings are unit-safe (`UserStringsUnitSafe`), and — NOT derived, a trusted statement about Rust's
+`Display` of the typed settings, checked on every accepted record by an oracle clause of component
+`antnode_accepts` (`typed-values-print-as-their-types`) — `TypedValuesPlain`. Both value hypotheses are
+satisfiable together (`unit_record_hypotheses`). -/
 theorem unit_safe_of_user_strings (σ : Valuation) (program : String) (hp : wordSafe program = true)
     (ht : TypedValuesPlain σ) (hu : UserStringsUnitSafe σ) :
     UnitSafe program (argv (buildInstall σ)) = true ∧ UnitSafe program (argv (buildUpgrade (recordOf σ))) = true := by
@@ -1338,6 +1424,20 @@ def unitRecord : Valuation := fun p =>
   else if p = ["options", "home_network"] then .bool false
   else if p = ["options", "owner"] then .opt (some [.plain "bob"])
   else exampleRecord p
+
+theorem unit_record_values_safe :
+    installResolved.all (fun e => match evalEntry evmDisplay unitRecord e with
+      | some it => ivalUnitSafe it.value | none => true) = true := by decide
+
+/-- Non-vacuity of the two value hypotheses of `unit_safe_of_user_strings`. -/
+theorem unit_record_hypotheses : TypedValuesPlain unitRecord ∧ UserStringsUnitSafe unitRecord := by
+  constructor <;>
+  · intro e he _ it hev
+    have := List.all_eq_true.mp unit_record_values_safe e he
+    simpa [hev] using this
+
+example : UnitSafe "/var/antctl/services/antnode1/antnode" (argv (buildInstall unitRecord)) = true :=
+  (unit_safe_of_user_strings unitRecord _ (by decide) unit_record_hypotheses.1 unit_record_hypotheses.2).1
 
 theorem unit_record_safe :
     UnitSafe (programOf (installSettings unitRecord)) (argv (buildInstall unitRecord)) = true ∧
@@ -1432,7 +1532,11 @@ theorem unit_owner_accepted_and_misread :
 #print axioms SafeNet.Props.C20.restart_settings_equiv
 #print axioms SafeNet.Props.C20.restart_keeps_service_level
 #print axioms SafeNet.Props.C20.restart_dropped_metrics_port_before_fix
+#print axioms SafeNet.Props.C20.restart_args_equiv_after_start
+#print axioms SafeNet.Props.C20.restart_drops_port_without_listen_addr
 #print axioms SafeNet.Props.C20.restart_replacement_args_equiv
+#print axioms SafeNet.Props.C20.replacement_level
+#print axioms SafeNet.Props.C20.replacement_keeps_level_partial
 #print axioms SafeNet.Props.C20.replacement_upgrade_args_equiv
 #print axioms SafeNet.Props.C20.user_bootstrap_cache_dir_is_written
 #print axioms SafeNet.Props.C20.user_bootstrap_cache_dir_was_overwritten
@@ -1442,6 +1546,7 @@ theorem unit_owner_accepted_and_misread :
 #print axioms SafeNet.Props.C20.rendered_unit_interpreted_as_intended
 #print axioms SafeNet.Props.C20.rendered_environment_read_back
 #print axioms SafeNet.Props.C20.unit_safe_of_user_strings
+#print axioms SafeNet.Props.C20.unit_record_hypotheses
 #print axioms SafeNet.Props.C20.unit_blank_in_path_rejected
 #print axioms SafeNet.Props.C20.unit_owner_accepted_and_misread
 
